@@ -38,6 +38,7 @@ type Case struct {
 	Stop   string   `json:"stop,omitempty"`    // "", "before", "info:<j>" (closed from inside the j-th info line), "timer:<us>"
 	Warm   []Case   `json:"warm,omitempty"`    // searches run before on the same engine (tables carry over)
 	SweepK int      `json:"sweep_k,omitempty"` // abort sweep: the request is repeated with every hard node budget 0..SweepK
+	Ponder string   `json:"ponder,omitempty"`  // "queued": ponder search whose ponderhit is already waiting; "hit:<j>": ponderhit sent from inside the j-th info line
 	Params []string `json:"params,omitempty"`  // spsa build only: name=value settings
 	GoArgs string   `json:"go,omitempty"`      // UCI leg: arguments of the go command
 }
@@ -235,6 +236,15 @@ func run1(c Case, s *search.Search, rec *evid.Rec) error {
 	}
 	quiet := c.TT < 32*1024
 	stopped := false
+	var phCh chan time.Time
+	if c.Ponder != "" {
+		// limits are ignored while pondering and apply from the ponderhit on
+		phCh = make(chan time.Time, 1)
+		opts = append(opts, search.WithPonderHit(phCh))
+		if c.Ponder == "queued" {
+			phCh <- time.Now()
+		}
+	}
 	var r srch.Result
 	switch {
 	case c.Stop == "before":
@@ -268,8 +278,23 @@ func run1(c Case, s *search.Search, rec *evid.Rec) error {
 		r = srch.Run(s, ri.b, quiet, opts...)
 		close(done)
 		stopped = true // may or may not have fired in time: treat as possibly aborted
+	case strings.HasPrefix(c.Ponder, "hit:") && !quiet:
+		j, _ := strconv.Atoi(c.Ponder[4:])
+		ch := make(chan struct{})
+		var buf strings.Builder
+		sw := &stopWriter{inner: &buf, after: j, ch: ch}
+		cnt := search.Counters{}
+		go func() { <-ch; phCh <- time.Now() }()
+		opts = append(opts, search.WithOutput(sw), search.WithCounters(&cnt))
+		sc, m, p := s.Go(ri.b, opts...)
+		sw.once.Do(func() { close(ch) })
+		r = srch.Result{Score: sc, Move: m, Ponder: p, Nodes: cnt.Nodes, Raw: buf.String()}
+		r.Lines, r.BadLine = srch.Parse(r.Raw)
 	default:
 		r = srch.Run(s, ri.b, quiet, opts...)
+	}
+	if c.Ponder != "" && rec != nil {
+		rec.Class("ponder_" + strings.SplitN(c.Ponder, ":", 2)[0])
 	}
 	// the search ran to completion if nothing could have aborted it
 	aborted := stopped || (c.Nodes >= 0 && r.Nodes >= c.Nodes)
@@ -568,6 +593,19 @@ func drawLimits(t *rapid.T, c *Case) {
 	}
 	if c.Nodes < 0 && c.Depth == 0 {
 		c.Depth = 4
+	}
+	if c.Stop == "" && gen.Chance(t, 1, 8, "ponder") {
+		if gen.Chance(t, 1, 2, "queued") {
+			c.Ponder = "queued"
+		} else {
+			c.Ponder = fmt.Sprintf("hit:%d", gen.Draw(t, 0, 3, "hitAfter"))
+			if c.TT < 32*1024 {
+				c.TT = 32 * 1024
+			}
+			if c.Depth == 0 || c.Depth > 6 {
+				c.Depth = gen.Draw(t, 1, 6, "pdepth")
+			}
+		}
 	}
 	if strings.HasPrefix(c.Stop, "info:") && c.TT < 32*1024 {
 		c.TT = 32 * 1024 // info lines need a table of at least 1000 buckets (documented)
